@@ -29,6 +29,8 @@ var c18HTMLTokens = []string{
 	// CDATA section delimiters (in HTML content a bogus comment that ends at the first '>'), and a
 	// complete element carrying a forbidden declaration, to be placed inside any of the wrappers
 	"<![CDATA[", "]]>", "<b style=\"position:fixed\">",
+	// style attributes on elements that policies keep through attribute rules only
+	"<map name=m style=\"", "<area shape=rect style='",
 }
 
 var c18CSSTokens = []string{"color", "position", "w\\69 dth", ":", ";", "red", "url(javascript:x)", "/*", "*/", "\"", "'", "@import", "{", "}", "\\", "!important", " ", "&#59 ", "&#x3a;", "(", ")"}
